@@ -158,6 +158,10 @@ inductive State where
   | none
   | fp (s : CState Fp)
   | rat (s : CState Rat)
+  /-- an `f64` case: the harness compares the numbers (container against scalar records) itself;
+      the model is run at arbitrary `Fp` values and answers what does not depend on the numbers —
+      shapes, constness, panics, errors, tape positions -/
+  | f64 (s : CState Fp)
 
 def init : State := .none
 
@@ -698,8 +702,30 @@ def stepC (s : CState R) (toks : List String) : CState R × String :=
 
 end
 
+/-- is the piece a decimal literal such as `-2.5` -/
+def isDecimal (p : String) : Bool :=
+  let q := if p.startsWith "-" then (p.drop 1).toString else p
+  match q.splitOn "." with
+  | [a, b] => a.length > 0 && b.length > 0 && a.all Char.isDigit && b.all Char.isDigit
+  | _ => false
+
+/-- `f64` cases: every decimal literal is replaced by some natural number (the model's numbers
+    are not compared for these cases) -/
+def encodeFloats (tok : String) : String :=
+  let pieces := tok.splitOn ","
+  if pieces.all isDecimal then
+    ",".intercalate (pieces.map fun p =>
+      toString ((p.foldl (fun acc c => (acc * 131 + c.toNat) % 1000000007) 7) + 2))
+  else tok
+
+/-- `f64` cases: the numbers are left out of the answer -/
+def withoutNumbers (answer : String) : String :=
+  " ".intercalate (((answer.splitOn " ").filter fun t => !t.startsWith "v=").map fun t =>
+    if t.startsWith "d=" then "d=*" else t)
+
 def step (s : State) (toks : List String) : State × String :=
   match toks with
+  | "@" :: "tapes" :: n :: "f64" :: _ => (.f64 { ntapes := n.toNat?.getD 1 }, "ok")
   | "@" :: "tapes" :: n :: "rat" :: _ => (.rat { ntapes := n.toNat?.getD 1 }, "ok")
   | "@" :: "tapes" :: n :: _ => (.fp { ntapes := n.toNat?.getD 1 }, "ok")
   | _ =>
@@ -707,5 +733,6 @@ def step (s : State) (toks : List String) : State × String :=
     | .none => (s, "bad-op")
     | .fp p => let (p', a) := stepC p toks; (.fp p', a)
     | .rat p => let (p', a) := stepC p toks; (.rat p', a)
+    | .f64 p => let (p', a) := stepC p (toks.map encodeFloats); (.f64 p', withoutNumbers a)
 
 end Driver.C06
